@@ -95,6 +95,45 @@ impl Prop for C13 {
     }
 }
 
+/// Another thread of the process allocates and releases descriptor numbers all the while (it
+/// keeps a handful of duplicates of stderr open, oldest closed first): a retry that re-uses a
+/// descriptor *number* the send path has already released then transmits somebody else's file.
+struct FdChurn {
+    stop: std::sync::Arc<std::sync::atomic::AtomicBool>,
+    thread: Option<std::thread::JoinHandle<()>>,
+}
+impl FdChurn {
+    fn start() -> FdChurn {
+        let stop = std::sync::Arc::new(std::sync::atomic::AtomicBool::new(false));
+        let s2 = stop.clone();
+        let thread = std::thread::spawn(move || {
+            let mut held = std::collections::VecDeque::new();
+            while !s2.load(SeqCst) {
+                let fd = unsafe { libc::dup(2) };
+                if fd >= 0 {
+                    held.push_back(fd);
+                }
+                if held.len() > 6 {
+                    ip::raw_close(held.pop_front().unwrap());
+                }
+                std::hint::spin_loop();
+            }
+            for fd in held {
+                ip::raw_close(fd);
+            }
+        });
+        FdChurn { stop, thread: Some(thread) }
+    }
+}
+impl Drop for FdChurn {
+    fn drop(&mut self) {
+        self.stop.store(true, SeqCst);
+        if let Some(t) = self.thread.take() {
+            let _ = t.join();
+        }
+    }
+}
+
 /// The same experiment one layer down: `platform::OsIpcSender::send(bytes, channels, regions)`.
 #[cfg(not(feature = "inproc"))]
 fn one_platform(case: &Case) -> Result<Outcome, Failure> {
@@ -126,11 +165,13 @@ fn one_platform(case: &Case) -> Result<Outcome, Failure> {
         }
         results
     });
+    let churn = if case.mask & 3 != 0 { Some(FdChurn::start()) } else { None };
     ip::arm(ip::gettid(), case.mask, -1);
     let r = tx.send(&data, channels, regions);
     let attempts = ip::TX_ATTEMPTS.load(SeqCst);
     let injected = ip::ENOBUFS_INJECTED.load(SeqCst);
     ip::disarm();
+    drop(churn);
     let r2 = tx.send(b"fin", vec![], vec![]);
     ensure!(r2.is_ok(), "enobufs:follow-on-send-failed", "platform level: the message after the faulty send could not be sent: {:?}", r2.map_err(|e| e.to_string()));
     let what = format!("platform level, mask {:#x}, {} bytes, {} injected of {} attempts, send result {:?}", case.mask, len, injected, attempts, r.as_ref().map_err(|e| e.to_string()));
